@@ -127,8 +127,12 @@ def gen_loss(r, f, n, subset, order=None, rounds=None):
     k = nfrag(n, f)
     idx = list(subset) if order is None else order
     ops = [("W", payload(r, n))] + [("D", 1, i, 1) for i in idx]
-    ops += repair_rounds(rounds if rounds is not None else k + 2, 1, 1)
-    return case(1, 1, f, ops, True)
+    nr = rounds if rounds is not None else k + 2
+    ops += repair_rounds(nr, 1, 1)
+    # with a working repair protocol one round fetches fragment 1 if nothing arrived, every further
+    # round up to 256 missing fragments: only then is delivery owed
+    lost = set(range(k)) - set(idx)
+    return case(1, 1, f, ops, (not lost) or nr >= 3 + k // 256)
 
 
 def gen_forged(r, f, n, rel=1):
